@@ -136,7 +136,14 @@ pub fn gen(rng: &mut ChaCha20Rng, n: usize, thorough: bool) -> Vec<Case> {
             let p = data_pos(rng); edits.push((p, other_char(rng, b[p], upper)));
         } else if style < 80 {
             tags.push("two-data-chars".into());
-            let p = data_pos(rng); let mut q = data_pos(rng); while q == p { q = data_pos(rng); }
+            // a third of the pairs lie in the checksum characters / across the data-checksum boundary
+            let ck = if b.len() - sep > 40 && sep <= 3 && (s.starts_with("lq") || s.starts_with("el") || s.starts_with("tlq") || s.starts_with("LQ") || s.starts_with("EL") || s.starts_with("TLQ")) { 12 } else { 6 };
+            let near = |rng: &mut ChaCha20Rng| rng.gen_range(b.len() - ck - 2..b.len());
+            let steer = rng.gen_range(0..3) == 0;
+            let p = if steer { near(rng) } else { data_pos(rng) };
+            let mut q = if steer && rng.gen_bool(0.7) { near(rng) } else { data_pos(rng) };
+            while q == p { q = data_pos(rng); }
+            if steer { tags.push("checksum-region".into()); }
             edits.push((p, other_char(rng, b[p], upper))); edits.push((q, other_char(rng, b[q], upper)));
         } else if style < 88 {
             // the witness-version character, alone or with one more character (moves the string between checksum variants)
@@ -171,6 +178,12 @@ pub fn gen(rng: &mut ChaCha20Rng, n: usize, thorough: bool) -> Vec<Case> {
         }
     };
     if !thorough {
+        // every single position of four representative addresses, all 31 replacement characters each
+        for (k, (ver, plen, blinded)) in [(0u8, 20usize, false), (1, 32, false), (0, 32, true), (1, 32, true)].into_iter().enumerate() {
+            let s = mk_addr(rng, k % 3, 2, ver, plen, blinded).to_string();
+            let sep = s.rfind('1').unwrap();
+            batches(&mut out, &s, "enum-all-single-positions", (sep + 1..s.len()).map(|i| (i, i)).collect());
+        }
         for k in 0..6u32 {
             let mut tags = Vec::new();
             let s = rand_segwit(rng, &mut tags).to_lowercase();
